@@ -214,11 +214,15 @@ theorem append_char_fault_safe {p : Pool} (hi : Inv p) {o : Nat} {s : Obj} (ho :
     still usable and destructible, nothing leaked.  A throwing operation leaves what every stream shows
     unchanged, except that a signed-number `operator<<` may already have appended its '-'. -/
 theorem step_fault_safe {p : Pool} (hi : Inv p) (op : Op) (hwf : op.wf) (hok : ByteLog.ok (abs p) op.toSpec = true) :
-    ∃ p', (op.run R p = .ok () p' ∨ op.run R p = .throw .unicodeError p' ∨ op.run R p = .throw .badAlloc p') ∧ Inv p' := by
-  rcases step_sound hi op hwf hok with ⟨p', h1, h2, _⟩ | ⟨p', h1, h2, _⟩ | ⟨p', h1, h2, _⟩
-  · exact ⟨p', Or.inl h1, h2⟩
-  · exact ⟨p', Or.inr (Or.inl h1), h2⟩
-  · exact ⟨p', Or.inr (Or.inr h1), h2⟩
+    ∃ p', Inv p' ∧
+      ((op.run R p = .ok () p' ∧ abs p' = ByteLog.step (abs p) op.toSpec) ∨
+       (op.run R p = .throw .unicodeError p' ∧ abs p' = abs p) ∨
+       (op.run R p = .throw .badAlloc p' ∧ p.failAt ≠ none ∧
+          (abs p' = abs p ∨ ∃ o ds b, op = .appendNum o true ds ∧ abs p o = some b ∧ abs p' = (abs p).set o (some (b ++ [45]))))) := by
+  rcases step_sound hi op hwf hok with ⟨p', h1, h2, h3, _⟩ | ⟨p', h1, h2, h3, _⟩ | ⟨p', h1, h2, h3, _, h5⟩
+  · exact ⟨p', h2, Or.inl ⟨h1, h3⟩⟩
+  · exact ⟨p', h2, Or.inr (Or.inl ⟨h1, h3⟩)⟩
+  · exact ⟨p', h2, Or.inr (Or.inr ⟨h1, h3, h5⟩)⟩
 
 /-- witness for the exception noted above: `ss << -5` on a stream of 255 bytes whose growth fails has
     appended the '-' (size 256) when `bad_alloc` arrives -/
